@@ -17,6 +17,8 @@ class Module(object):
         with warnings.catch_warnings():
             warnings.simplefilter('ignore')
             self.tree = ast.parse(self.source, filename=rel)
+        from .normalise import normalise
+        self.normalised = normalise(self.tree)
         for node in ast.walk(self.tree):
             for child in ast.iter_child_nodes(node):
                 child._parent = node
